@@ -11,8 +11,9 @@ from ..astutil import (
 from ..evalx import has_unknown
 from ..index import ClassInfo, FuncInfo
 from ..oracles import load as load_oracle
-from ..report import Registry, sub
+from ..report import Registry, chain, sub
 from ._helpers_rules_a import Mini, Unsupported, self_attr, str_constants, strings_over
+from ._helpers_rob_d1 import Mini2, ModelSelf, ModelStr, resolve_alias, single_assignments
 
 R = Registry(
     "C06",
@@ -62,16 +63,13 @@ def _fixed_double_percents(ctx, cls: ClassInfo):
     return None
 
 
-def _run_method(fn: FuncInfo, arg: str, attrs: dict, what: str):
-    def attr_hook(node, env, mini):
-        a = self_attr(node)
-        if a is not None and a in attrs:
-            return attrs[a]
-        return NotImplemented
-    mini = Mini(attr_hook=attr_hook, what=what)
-    env = {fn.params[0]: object(), fn.params[1]: arg}
-    kind, val, node = mini.run(fn.node.body, env)
-    if kind != "return" or not isinstance(val, str):
+def _run_method(ctx, cls: ClassInfo, fn: FuncInfo, arg: str, attrs: dict, what: str):
+    """Model run of `cls().<fn>(arg)`: `self.<attr>` from `attrs`, extracted `self.<helper>()` / `super()` calls
+    are followed through the MRO of `cls`."""
+    selfobj = ModelSelf(ctx.index, cls, attrs=dict(attrs),
+                        on_follow=lambda h, a, k: ctx.functions_analysed.add(h.key))
+    val = Mini2(what=what).run_top(fn, [selfobj, arg], {}, selfobj)
+    if not isinstance(val, str):
         raise Unsupported(f"{what}: did not return a string for {arg!r}")
     return val
 
@@ -114,8 +112,8 @@ def r1(ctx):
                 alphabet = [q, "]", "%", "a"]
                 for s in strings_over(alphabet, 3):
                     n += 1
-                    e = _run_method(esc, s, attrs, esc.key)
-                    u = _run_method(une, e, attrs, une.key)
+                    e = _run_method(ctx, members[0], esc, s, attrs, esc.key)
+                    u = _run_method(ctx, members[0], une, e, attrs, une.key)
                     if u != s:
                         witness = (f"escape_quote={q!r}, _double_percents={dpv}: {s!r} -> escaped {e!r} -> "
                                    f"unescaped {u!r}")
@@ -177,6 +175,9 @@ def _raw_ok(fn, node) -> bool:
     return any((fn.key, a, pol) in RAW_OK for a, pol in atoms)
 
 
+_INDEX = [None]  # set by r3 (helper following in _sanitized)
+
+
 def _sanitized(e, fn: FuncInfo, depth=0, _active=None) -> bool:
     _active = _active if _active is not None else set()
     if depth > 12:
@@ -191,6 +192,15 @@ def _sanitized(e, fn: FuncInfo, depth=0, _active=None) -> bool:
             is_super = isinstance(recv, ast.Call) and isinstance(recv.func, ast.Name) and recv.func.id == "super"
             if (is_self or is_super) and (f.attr in QUOTERS or f.attr.startswith("format_")):
                 return True
+            if is_self and fn.cls is not None and _INDEX[0] is not None and depth < 6:
+                # an extracted private helper: quoted material iff every return of the helper is (its own
+                # parameters are raw names, so a pass-through helper is not accepted)
+                h = _INDEX[0].resolve_method(fn.cls, f.attr)
+                if h is not None and h.key != fn.key and h.key not in _active:
+                    hrets = returns_of(h.node)
+                    keys = {k for k in _active if "::" in k} | {h.key, fn.key}  # callee locals start fresh
+                    if hrets and all(_sanitized(r.value, h, depth + 1, set(keys)) for r in hrets):
+                        return True
             if f.attr == "join" and isinstance(recv, ast.Constant) and len(e.args) == 1:
                 a = e.args[0]
                 if isinstance(a, (ast.GeneratorExp, ast.ListComp)):
@@ -231,12 +241,80 @@ def _inline_quote_idiom(fn: FuncInfo, name: str) -> bool:
     return False
 
 
+# ---- model runs (rob-D1): the three small predicates/wrappers are *executed* over model values, so that early
+# returns, boolean locals, if-chains vs `or`, f-strings and extracted helpers do not matter
+_IQ, _FQ = "\x02", "\x03"
+_MODEL_RESERVED = frozenset({"select", "order"})
+_MODEL_ILLEGAL_INITIAL = frozenset({"1", "7", "$"})
+_MODEL_LEGAL = re.compile(r"^[a-z0-9_$]+$", re.I)
+# one model name per disjunct for which ONLY that disjunct holds, and names for which none holds
+_REQ_PROBES = (("reserved", "select", "lower-cased name in reserved_words"),
+               ("initial", "7up", "first character illegal"),
+               ("legal", "a b", "not legal_characters.match(name)"),
+               ("case", "miXed", "name is not all lower case"))
+_REQ_NONE = ("plain", "a_1$")
+
+
+def _follow_note(ctx):
+    return lambda h, a, k: ctx.functions_analysed.add(h.key)
+
+
+def _model_quote_identifier(ctx, cls: ClassInfo, f: FuncInfo):
+    """-> (holds, rendering) : quote_identifier(v) == initial_quote + _escape_identifier(v) + final_quote."""
+    probe = "na" + _FQ + "me"
+    selfobj = ModelSelf(ctx.index, cls, attrs={"initial_quote": _IQ, "final_quote": _FQ},
+                        methods={"_escape_identifier": lambda v: "E<" + v + ">"}, on_follow=_follow_note(ctx))
+    val = Mini2(what=f.key).run_top(f, [selfobj, probe], {}, selfobj)
+    shown = val.replace(_IQ, "<initial_quote>").replace(_FQ, "<final_quote>") if isinstance(val, str) else repr(val)
+    return val == _IQ + "E<" + probe + ">" + _FQ, shown
+
+
+def _model_requires_quotes(ctx, cls: ClassInfo, f: FuncInfo):
+    """-> set of aspects whose probe name makes _requires_quotes() true (all four expected)."""
+    found = set()
+    attrs = {"reserved_words": _MODEL_RESERVED, "illegal_initial_characters": _MODEL_ILLEGAL_INITIAL,
+             "legal_characters": _MODEL_LEGAL}
+
+    def run(name):
+        selfobj = ModelSelf(ctx.index, cls, attrs=dict(attrs), on_follow=_follow_note(ctx))
+        return bool(Mini2(what=f.key).run_top(f, [selfobj, name], {}, selfobj))
+
+    for aspect, name, _why in _REQ_PROBES:
+        if run(name):
+            found.add(aspect)
+    for name in _REQ_NONE:
+        if run(name):
+            raise Unsupported(f"{f.key}: the model name {name!r} requires quotes: model values do not fit")
+    return found
+
+
+def _model_quote(ctx, cls: ClassInfo, f: FuncInfo):
+    """-> (quoted when required, quoted when forced) for quote()."""
+    def run(ident, req, selfobj=None):
+        selfobj = selfobj or ModelSelf(
+            ctx.index, cls, attrs={"_strings": {}},
+            methods={"_requires_quotes": lambda v: req, "quote_identifier": lambda v: "Q<" + v + ">"},
+            on_follow=_follow_note(ctx))
+        return Mini2(what=f.key).run_top(f, [selfobj, ident], {}, selfobj), selfobj
+
+    flagged_none = ModelStr("name")
+    flagged_none.quote = None
+    forced = ModelStr("name")
+    forced.quote = True
+    first, so = run("name", True)
+    again, _ = run("name", True, so)  # second call: served from the memo
+    req = first == "Q<name>" and again == "Q<name>" and run(flagged_none, True)[0] == "Q<name>"
+    force = run(forced, False)[0] == "Q<name>"
+    return req, force
+
+
 @R.rule("C06-R3", floor=54, template="T-FLOW",
         desc="quote_identifier = initial_quote + _escape_identifier(value) + final_quote; _requires_quotes keeps "
              "its four disjuncts; quote() quotes when required or forced; format_* helpers return only quoted "
              "material (exceptions listed); compiler classes contain no hand-quoted identifier templates")
 def r3(ctx):
     ix = ctx.index
+    _INDEX[0] = ix
     base, classes = _preparer_classes(ctx)
     # (a) quote_identifier, every definition in the hierarchy
     for cls in classes:
@@ -244,6 +322,14 @@ def r3(ctx):
         if f is None:
             continue
         ctx.functions_analysed.add(f.key)
+        try:
+            holds, shown = _model_quote_identifier(ctx, cls, f)
+            ctx.check(holds, f.key, f"quote_identifier renders `{shown}` for the model name, not "
+                                    f"initial_quote + _escape_identifier({f.params[1]}) + final_quote",
+                      "initial + escape(value) + final", f.loc)
+            continue
+        except Unsupported as e:
+            ctx.note(f"{f.key}: model run not possible ({e}); structural matcher used")
         rets = returns_of(f.node)
         ctx.require(len(rets) == 1, f"{f.key}: expected one return")
         parts = _flatten_add(rets[0].value)
@@ -260,6 +346,14 @@ def r3(ctx):
         if f is None:
             continue
         ctx.functions_analysed.add(f.key)
+        try:
+            found = _model_requires_quotes(ctx, cls, f)
+            for aspect, _name, why in _REQ_PROBES:
+                ctx.check(aspect in found, f"{f.key}:{aspect}",
+                          f"_requires_quotes no longer tests: {why} (such names would be emitted bare)", why, f.loc)
+            continue
+        except Unsupported as e:
+            ctx.note(f"{f.key}: model run not possible ({e}); structural matcher used")
         v = f.params[1]
         lowered = {n for n, val, st in name_stores(f.node)
                    if isinstance(val, ast.Call) and isinstance(val.func, ast.Attribute) and val.func.attr == "lower"
@@ -293,6 +387,16 @@ def r3(ctx):
         if f is None:
             continue
         ctx.functions_analysed.add(f.key)
+        try:
+            req, forced = _model_quote(ctx, cls, f)
+            ctx.check(req and forced, f.key,
+                      "quote() does not call quote_identifier both when _requires_quotes() holds and when quoting "
+                      f"is forced (model: required -> {'quoted' if req else 'bare'}, forced -> "
+                      f"{'quoted' if forced else 'bare'})",
+                      "quote_identifier under _requires_quotes and under force", f.loc)
+            continue
+        except Unsupported as e:
+            ctx.note(f"{f.key}: model run not possible ({e}); structural matcher used")
         pm = f.module.parents()
         ident = f.params[1]
         qcalls = [c for c in calls_in(f.node) if dotted(c.func) == "self.quote_identifier"]
@@ -368,6 +472,78 @@ HAND_QUOTE_OK = {
              "quote_identifier writes; unformat_identifiers unescapes every component")
 def r4(ctx):
     f = ctx.func(f"{PREP}._r_identifiers")
+    uf = ctx.func(f"{PREP}.unformat_identifiers")
+    try:
+        _r4_model(ctx, f, uf)
+        return
+    except Unsupported as e:
+        ctx.note(f"{f.key}: model run not possible ({e}); structural matcher used")
+    _r4_structural(ctx, f)
+
+
+_STYLES = (("double-quote", ('"', '"')), ("backtick", ("`", "`")), ("brackets", ("[", "]")))
+
+
+def _r4_model(ctx, f: FuncInfo, uf: FuncInfo):
+    """Model run of the reader: `_r_identifiers` is evaluated (re.escape / re.compile are the stdlib's), first over
+    marker values (which of the writer's three strings reach the regex), then for three quote styles; the compiled
+    regex is handed to a model run of `unformat_identifiers`, which must read back what the writer produces."""
+    base = ctx.index.cls(PREP)
+    follow = _follow_note(ctx)
+
+    def preparer(ini, fin, methods=None, extra=None):
+        attrs = {"initial_quote": ini, "final_quote": fin, "escape_quote": fin, "escape_to_quote": fin * 2,
+                 "_double_percents": False}
+        attrs.update(extra or {})
+        return ModelSelf(ctx.index, base, attrs=attrs, methods=methods or {}, on_follow=follow)
+
+    def regex(selfobj):
+        rx = Mini2(what=f.key).run_top(f, [selfobj], {}, selfobj)
+        if not isinstance(rx, re.Pattern):
+            raise Unsupported(f"{f.key}: does not evaluate to a compiled regular expression in the model")
+        return rx
+
+    # (1) provenance of the three slots, with marker strings
+    mi, mf = "\x02", "\x03"
+    esc_of = lambda v: "\x04" + v + "\x05"  # noqa: E731
+    pat = regex(preparer(mi, mf, methods={"_escape_identifier": esc_of})).pattern
+    e_escaped = re.escape(esc_of(mf))
+    rest = pat.replace(e_escaped, "")
+    for slot, present, src in (("initial", re.escape(mi) in rest, "self.initial_quote"),
+                               ("final", re.escape(mf) in rest, "self.final_quote"),
+                               ("escaped", e_escaped in pat, "self._escape_identifier(self.final_quote)")):
+        ctx.check(present, f"{f.key}:slot:{slot}",
+                  f"the regex is not built from re.escape({src}), which the writer uses for the {slot} part", src, f.loc)
+    # (2) reader/writer agreement per quote style
+    for label, (ini, fin) in _STYLES:
+        esc = fin + fin
+        try:
+            rx = regex(preparer(ini, fin))
+        except Unsupported as e:
+            if "not a regular expression" in str(e):
+                ctx.error(f"_r_identifiers template does not compile for {label}: {e}")
+            raise
+        reader = preparer(ini, fin, extra={"_r_identifiers": rx})
+        witness = None
+        n = 0
+        names = [s for s in strings_over([fin, ini, ".", "a", " "], 2) if s]
+        for a in names:
+            for b in [None] + names[:12]:
+                comps = [a] if b is None else [a, b]
+                text = ".".join(ini + c.replace(fin, esc) + fin for c in comps)
+                got = Mini2(what=uf.key).run_top(uf, [reader, text], {}, reader)
+                got = list(got) if isinstance(got, (list, tuple)) else got
+                n += 1
+                if got != comps:
+                    witness = f"{label}: components {comps} written as {text!r} are read back as {got}"
+                    break
+            if witness:
+                break
+        ctx.check(witness is None, f"{f.key}:model:{label}", witness or "",
+                  f"{n} dotted names round-trip through unformat_identifiers", f.loc, [witness] if witness else None)
+
+
+def _r4_structural(ctx, f: FuncInfo):
     # slot -> local name -> tuple position -> source expression
     unpack = [n for n in walk_local(f.node) if isinstance(n, ast.Assign) and isinstance(n.targets[0], ast.Tuple)]
     ctx.require(len(unpack) == 1, "_r_identifiers: expected one tuple-unpacking assignment")
@@ -446,6 +622,17 @@ def _quote_flag_reads(fn: FuncInfo):
     return out
 
 
+def _cache_name(fn: FuncInfo, cache: str, singles) -> str:
+    """the container behind a local alias (`memo = self._strings`) -- keeps instance keys stable."""
+    head, _, rest = cache.partition(".")
+    seen = set()
+    while head in singles and head not in seen and dotted(singles[head]):
+        seen.add(head)
+        cache = dotted(singles[head]) + (("." + rest) if rest else "")
+        head, _, rest = cache.partition(".")
+    return cache
+
+
 def _cache_reads(fn: FuncInfo, param: str):
     """AST nodes that look `param` up in a container: `param in C`, `C[param]` (load), `C.get(param)`."""
     out = []
@@ -460,6 +647,53 @@ def _cache_reads(fn: FuncInfo, param: str):
                 and isinstance(n.args[0], ast.Name) and n.args[0].id == param and dotted(n.func.value):
             out.append((n, dotted(n.func.value)))
     return out
+
+
+def _helper_cache_reads(ix, fn: FuncInfo, param: str, depth=0, seen=None):
+    """cache reads keyed by `param` inside private helpers that `fn` hands `param` to (`self.<h>(param)` resolved
+    through the MRO, or a module level `h(param)`): [(call node in fn, cache name)] -- the call site stands for
+    the read, so that the flag test must dominate the call."""
+    out = []
+    seen = seen if seen is not None else {fn.key}
+    for c in calls_in(fn.node):
+        h = None
+        if isinstance(c.func, ast.Attribute) and dotted(c.func.value) == "self" and fn.cls is not None:
+            h = ix.resolve_method(fn.cls, c.func.attr)
+            hparams = [p for p in (h.params if h else []) if p != "self"]
+        elif isinstance(c.func, ast.Name):
+            t = ix.resolve(fn.module, c.func.id)
+            h = t if isinstance(t, FuncInfo) and t.cls is None else None
+            hparams = list(h.params) if h else []
+        if h is None or h.key in seen:
+            continue
+        hp = None
+        for i, a in enumerate(c.args):
+            if isinstance(a, ast.Name) and a.id == param and i < len(hparams):
+                hp = hparams[i]
+        for k in c.keywords:
+            if k.arg and isinstance(k.value, ast.Name) and k.value.id == param and k.arg in hparams:
+                hp = k.arg
+        if hp is None or hp in _quote_flag_reads(h):
+            continue  # a helper that tests the flag itself is a candidate of its own
+        hsingles = single_assignments(h.node)
+        inner = [(c, _cache_name(h, cache, hsingles)) for _n, cache in _cache_reads(h, hp)]
+        if depth < 1:
+            inner += [(c, cache) for _n, cache in _helper_cache_reads(ix, h, hp, depth + 1, seen | {h.key})]
+        out += inner
+    return out
+
+
+def _guard_atoms_nodes(test, pol):
+    """[(atom node, polarity)] of a dominating branch outcome: `a and b` taken, `a or b` not taken and `not x`
+    are split; everything else is one atom."""
+    if isinstance(test, ast.UnaryOp) and isinstance(test.op, ast.Not):
+        return _guard_atoms_nodes(test.operand, not pol)
+    if isinstance(test, ast.BoolOp) and ((isinstance(test.op, ast.And) and pol) or (isinstance(test.op, ast.Or) and not pol)):
+        out = []
+        for v in test.values:
+            out += _guard_atoms_nodes(v, pol)
+        return out
+    return [(test, pol)]
 
 
 @R.rule("C06-R5", floor=2, template="T-PATH (cache key completeness)",
@@ -478,20 +712,29 @@ def r5(ctx):
     for fn in sorted(cands, key=lambda f: f.key):
         flags = _quote_flag_reads(fn)
         for param, holders in sorted(flags.items()):
-            reads = _cache_reads(fn, param)
+            reads = _cache_reads(fn, param) + _helper_cache_reads(ix, fn, param)
             if not reads:
                 continue
             ctx.functions_analysed.add(fn.key)
             g = ctx.cfg(fn)
             verdicts = {}
+            pm = fn.module.parents()
+            # boolean snapshots of the flag test (`unflagged = force is None`) are resolved; the flag holders
+            # themselves (`force = getattr(ident, "quote", None)`) stay names
+            singles = {k: v for k, v in single_assignments(fn.node).items() if k not in holders and k != param}
             for node, cache in reads:
-                key = f"{fn.key}:{cache}[{param}]"
+                key = f"{fn.key}:{_cache_name(fn, cache, singles)}[{param}]"
                 bad = verdicts.get(key)
                 nodes = g.nodes_containing(node)
                 ctx.require(nodes, f"{key}: cache read not found in the CFG")
                 for nid in nodes:
                     ok = False
-                    for test, pol in g.edge_guards(nid):
+                    # CFG branch outcomes + the and/or/ternary operands that lexically dominate the read
+                    guards = list(g.edge_guards(nid)) + list(lexical_guards(pm, node, stop=fn.node))
+                    atoms = []
+                    for test, pol in guards:
+                        atoms += _guard_atoms_nodes(resolve_alias(test, singles, fn.params), pol)
+                    for test, pol in atoms:
                         mentions = False
                         for a in ast.walk(test):
                             if isinstance(a, ast.Attribute) and a.attr == "quote" and isinstance(a.value, ast.Name) and a.value.id == param:
@@ -500,8 +743,11 @@ def r5(ctx):
                                 mentions = True
                         if not mentions:
                             continue
-                        is_none_test = isinstance(test, ast.Compare) and len(test.ops) == 1 and isinstance(test.ops[0], ast.Is) \
+                        is_none_test = isinstance(test, ast.Compare) and len(test.ops) == 1 \
+                            and isinstance(test.ops[0], (ast.Is, ast.IsNot)) \
                             and isinstance(test.comparators[0], ast.Constant) and test.comparators[0].value is None
+                        if is_none_test and isinstance(test.ops[0], ast.IsNot):
+                            pol = not pol  # `x is not None` not taken == `x is None` taken
                         if (is_none_test and pol) or (not is_none_test and not pol):
                             ok = True
                     if not ok:
@@ -523,8 +769,23 @@ def r5(ctx):
 def r6(ctx):
     ix = ctx.index
     q = ctx.func(f"{PREP}.quote")
-    preds = {c.func.attr for c in calls_in(q.node)
-             if isinstance(c.func, ast.Attribute) and dotted(c.func.value) == "self" and c.func.attr.startswith("_requires_quotes")}
+    # the predicate quote() decides with: read in quote() itself or in a private helper it calls on self
+    preds = set()
+    todo, seen = [(q, 0)], {q.key}
+    while todo:
+        g, depth = todo.pop()
+        singles = single_assignments(g.node)
+        for n in walk_local(g.node):
+            if isinstance(n, ast.Attribute) and n.attr.startswith("_requires_quotes") \
+                    and dotted(resolve_alias(n.value, singles, g.params)) == "self":
+                preds.add(n.attr)
+        for c in calls_in(g.node):
+            if isinstance(c.func, ast.Attribute) and dotted(c.func.value) == "self" and depth < 2 \
+                    and not c.func.attr.startswith("_requires_quotes") and c.func.attr not in QUOTERS:
+                h = ix.resolve_method(q.cls, c.func.attr)
+                if h is not None and h.key not in seen:
+                    seen.add(h.key)
+                    todo.append((h, depth + 1))
     ctx.require(len(preds) == 1, f"IdentifierPreparer.quote: expected one _requires_quotes* predicate, found {sorted(preds)}")
     pred = next(iter(preds))
     ctx.ok(q.key + ":predicate", f"quote() decides with self.{pred}()")
@@ -535,15 +796,37 @@ def r6(ctx):
             if f is None:
                 continue
             ctx.functions_analysed.add(f.key)
-            used = [c for c in calls_in(f.node) if isinstance(c.func, ast.Attribute) and c.func.attr.startswith("_requires_quotes")]
+            # predicate reads `<...identifier_preparer>._requires_quotes*` in the method and in the private helpers
+            # it calls on self (two levels); local aliases (`prep = self.identifier_preparer`,
+            # `needs = prep._requires_quotes`) are resolved first
+            used = []  # (attribute name, resolved receiver text)
+            delegates = False
+            todo, seen = [(f, 0)], {f.key}
+            while todo:
+                g, depth = todo.pop()
+                singles = single_assignments(g.node)
+                for n in walk_local(g.node):
+                    if isinstance(n, ast.Attribute) and n.attr.startswith("_requires_quotes"):
+                        used.append((n.attr, dotted(resolve_alias(n.value, singles, g.params)) or unparse(n.value)))
+                for c in calls_in(g.node):
+                    if not isinstance(c.func, ast.Attribute):
+                        continue
+                    if c.func.attr == nm and not (g is f and dotted(c.func.value) == "self"):
+                        delegates = True
+                    if dotted(c.func.value) == "self" and depth < 2:
+                        h = ix.resolve_method(cls, c.func.attr)
+                        if h is not None and h.key not in seen and h.name not in ("normalize_name", "denormalize_name"):
+                            seen.add(h.key)
+                            ctx.functions_analysed.add(h.key)
+                            todo.append((h, depth + 1))
             if not used:
                 # an override that does not fold by quoting rules at all (delegation) is outside this relation
-                if any(isinstance(c.func, ast.Attribute) and c.func.attr == nm for c in calls_in(f.node)):
+                if delegates:
                     ctx.ok(f.key, "delegates", nontrivial=False)
                     continue
                 ctx.violation(f.key, f"{nm} folds case without consulting the preparer's {pred}()", f.loc)
                 continue
-            wrong = [unparse(c.func) for c in used if c.func.attr != pred or not (dotted(c.func.value) or "").endswith("identifier_preparer")]
+            wrong = [f"{recv}.{attr}" for attr, recv in used if attr != pred or not recv.endswith("identifier_preparer")]
             ctx.check(not wrong, f.key,
                       f"{nm} decides case folding with `{wrong}`, but quote() decides with `{pred}`: a name that is "
                       "always rendered quoted (reserved word, illegal initial character) is case-folded as if it were "
@@ -555,8 +838,12 @@ def r6(ctx):
 R.mutant("r1-mssql-unescape-wrong-char", "dialects/mssql/base.py",
          sub('        return value.replace("]]", "]")\n', '        return value.replace("[[", "[")\n'), "C06-R1")
 R.mutant("r1-base-unescape-noop", COMP,
-         sub("        return value.replace(self.escape_to_quote, self.escape_quote)\n\n    def validate_sql_phrase",
-             "        return value\n\n    def validate_sql_phrase"), "C06-R1")
+         sub("        value = value.replace(self.escape_to_quote, self.escape_quote)\n        if self._double_percents:\n"
+             "            value = value.replace(\"%%\", \"%\")\n",
+             "        if self._double_percents:\n            value = value.replace(\"%%\", \"%\")\n"), "C06-R1")
+R.mutant("r1-base-unescape-forgets-percent", COMP,
+         sub("        if self._double_percents:\n            value = value.replace(\"%%\", \"%\")\n        return value\n",
+             "        return value\n"), "C06-R1")
 R.mutant("r1-mysqlconnector-escape-triples", "dialects/mysql/mysqlconnector.py",
          sub("            self.escape_to_quote,  # type: ignore[attr-defined]\n        )\n        return value\n",
              "            self.escape_to_quote + self.escape_quote,  # type: ignore[attr-defined]\n        )\n        return value\n"), "C06-R1")
@@ -602,3 +889,136 @@ R.mutant("r6-denormalize-no-predicate", "engine/default.py",
 R.mutant("benign-normalize-local-alias", "engine/default.py",
          sub("        elif name_upper == name and not (\n            self.identifier_preparer._requires_quotes\n        )(name_lower):",
              "        elif name_upper == name and not self.identifier_preparer._requires_quotes(\n            name_lower\n        ):"), None)
+# ---- rob-D1: benign families (stored refactors rfD_1/2/3 and own variants) with breaking twins ---------------
+_REQ_OLD = ("        lc_value = value.lower()\n        return (\n            lc_value in self.reserved_words\n"
+            "            or value[0] in self.illegal_initial_characters\n"
+            "            or not self.legal_characters.match(str(value))\n            or (lc_value != value)\n        )\n")
+R.mutant("benign-requires-quotes-early-returns", COMP,
+         sub(_REQ_OLD, "        lc_value = value.lower()\n        if lc_value in self.reserved_words:\n            return True\n"
+             "        if value[0] in self.illegal_initial_characters:\n            return True\n"
+             "        if not self.legal_characters.match(str(value)):\n            return True\n"
+             "        return lc_value != value\n"), None)
+R.mutant("r3-requires-quotes-early-returns-drop-initial", COMP,
+         sub(_REQ_OLD, "        lc_value = value.lower()\n        if lc_value in self.reserved_words:\n            return True\n"
+             "        if not self.legal_characters.match(str(value)):\n            return True\n"
+             "        return lc_value != value\n"), "C06-R3")
+R.mutant("benign-requires-quotes-de-morgan-locals", COMP,
+         sub(_REQ_OLD, "        folded = value.lower()\n        is_plain = (\n            folded == value\n"
+             "            and folded not in self.reserved_words\n"
+             "            and value[0] not in self.illegal_initial_characters\n"
+             "            and self.legal_characters.match(str(value)) is not None\n        )\n"
+             "        return not is_plain\n"), None)
+R.mutant("r3-requires-quotes-de-morgan-wrong-polarity", COMP,
+         sub(_REQ_OLD, "        folded = value.lower()\n        is_plain = (\n            folded == value\n"
+             "            and folded not in self.reserved_words\n"
+             "            and value[0] not in self.illegal_initial_characters\n"
+             "            and self.legal_characters.match(str(value)) is None\n        )\n"
+             "        return not is_plain\n"), "C06-R3")
+_ESC_OLD = ("        value = value.replace(self.escape_quote, self.escape_to_quote)\n        if self._double_percents:\n"
+            "            value = value.replace(\"%\", \"%%\")\n        return value\n")
+R.mutant("benign-escape-early-return-local", COMP,
+         sub(_ESC_OLD, "        escaped = value.replace(self.escape_quote, self.escape_to_quote)\n"
+             "        if not self._double_percents:\n            return escaped\n        return escaped.replace(\"%\", \"%%\")\n"), None)
+R.mutant("benign-escape-extracted-helper", COMP,
+         sub(_ESC_OLD, "        return self._double_percent_signs(\n            value.replace(self.escape_quote, self.escape_to_quote)\n        )\n\n"
+             "    def _double_percent_signs(self, text):\n        if self._double_percents:\n            text = text.replace(\"%\", \"%%\")\n"
+             "        return text\n"), None)
+R.mutant("r1-escape-extracted-helper-triples", COMP,
+         sub(_ESC_OLD, "        return self._double_percent_signs(\n            value.replace(self.escape_quote, self.escape_to_quote)\n        )\n\n"
+             "    def _double_percent_signs(self, text):\n        if self._double_percents:\n            text = text.replace(\"%\", \"%%%\")\n"
+             "        return text\n"), "C06-R1")
+_QI_OLD = ("        return (\n            self.initial_quote\n            + self._escape_identifier(value)\n"
+           "            + self.final_quote\n        )\n")
+R.mutant("benign-quote-identifier-fstring", COMP,
+         sub(_QI_OLD, "        body = self._escape_identifier(value)\n        return f\"{self.initial_quote}{body}{self.final_quote}\"\n"), None)
+R.mutant("r3-quote-identifier-fstring-swapped-quotes", COMP,
+         sub(_QI_OLD, "        body = self._escape_identifier(value)\n        return f\"{self.final_quote}{body}{self.initial_quote}\"\n"), "C06-R3")
+_QUOTE_OLD = ("        if force is None:\n            if ident in self._strings:\n                return self._strings[ident]\n"
+              "            else:\n                if self._requires_quotes(ident):\n"
+              "                    self._strings[ident] = self.quote_identifier(ident)\n                else:\n"
+              "                    self._strings[ident] = ident\n                return self._strings[ident]\n"
+              "        elif force:\n            return self.quote_identifier(ident)\n        else:\n            return ident\n")
+R.mutant("benign-quote-flag-snapshot-early-returns", COMP,
+         sub(_QUOTE_OLD, "        unflagged = force is None\n        if not unflagged:\n"
+             "            return self.quote_identifier(ident) if force else ident\n"
+             "        memo = self._strings\n        if ident not in memo:\n"
+             "            needs = self._requires_quotes(ident)\n"
+             "            memo[ident] = self.quote_identifier(ident) if needs else ident\n        return memo[ident]\n"), None)
+R.mutant("r5-quote-flag-snapshot-cache-first", COMP,
+         sub(_QUOTE_OLD, "        unflagged = force is None\n        memo = self._strings\n        if ident in memo:\n            return memo[ident]\n"
+             "        if not unflagged:\n            return self.quote_identifier(ident) if force else ident\n"
+             "        needs = self._requires_quotes(ident)\n"
+             "        memo[ident] = self.quote_identifier(ident) if needs else ident\n        return memo[ident]\n"), "C06-R5")
+R.mutant("benign-quote-memo-helper", COMP,
+         sub(_QUOTE_OLD, "        if force is None:\n            return self._quote_memoized(ident)\n"
+             "        elif force:\n            return self.quote_identifier(ident)\n        else:\n            return ident\n\n"
+             "    def _quote_memoized(self, name):\n        try:\n            return self._strings[name]\n        except KeyError:\n            pass\n"
+             "        if self._requires_quotes(name):\n            result = self.quote_identifier(name)\n        else:\n            result = name\n"
+             "        self._strings[name] = result\n        return result\n"), None)
+R.mutant("r5-quote-memo-helper-before-flag", COMP,
+         sub(_QUOTE_OLD, "        memoized = self._quote_memoized(ident)\n        if force is None:\n            return memoized\n"
+             "        elif force:\n            return self.quote_identifier(ident)\n        else:\n            return ident\n\n"
+             "    def _quote_memoized(self, name):\n        if name in self._strings:\n            return self._strings[name]\n"
+             "        if self._requires_quotes(name):\n            result = self.quote_identifier(name)\n        else:\n            result = name\n"
+             "        self._strings[name] = result\n        return result\n"), "C06-R5")
+R.mutant("r3-quote-ignores-force", COMP,
+         sub("        elif force:\n            return self.quote_identifier(ident)\n        else:\n            return ident\n",
+             "        else:\n            return ident\n"), "C06-R3")
+_RID_OLD = ("        initial, final, escaped_final = (\n            re.escape(s)\n            for s in (\n"
+            "                self.initial_quote,\n                self.final_quote,\n"
+            "                self._escape_identifier(self.final_quote),\n            )\n        )\n")
+R.mutant("benign-r-identifiers-explicit-escapes", COMP,
+         sub(_RID_OLD, "        escaped_final_quote = self._escape_identifier(self.final_quote)\n"
+             "        initial = re.escape(self.initial_quote)\n        final = re.escape(self.final_quote)\n"
+             "        escaped_final = re.escape(escaped_final_quote)\n"), None)
+R.mutant("r4-r-identifiers-explicit-escapes-wrong-source", COMP,
+         sub(_RID_OLD, "        escaped_final_quote = self._escape_identifier(self.initial_quote)\n"
+             "        initial = re.escape(self.initial_quote)\n        final = re.escape(self.final_quote)\n"
+             "        escaped_final = re.escape(escaped_final_quote)\n"), "C06-R4")
+R.mutant("r4-r-identifiers-unescaped-final", COMP,
+         sub(_RID_OLD, "        escaped_final_quote = self._escape_identifier(self.final_quote)\n"
+             "        initial = re.escape(self.initial_quote)\n        final = self.final_quote\n"
+             "        escaped_final = re.escape(escaped_final_quote)\n"), "C06-R4")
+_UNF_OLD = ("        r = self._r_identifiers\n        return [\n            self._unescape_identifier(i)\n"
+            "            for i in [a or b for a, b in r.findall(identifiers)]\n        ]\n")
+R.mutant("benign-unformat-loop", COMP,
+         sub(_UNF_OLD, "        matcher = self._r_identifiers\n        components = []\n"
+             "        for quoted_token, plain_token in matcher.findall(identifiers):\n"
+             "            token = quoted_token or plain_token\n"
+             "            components.append(self._unescape_identifier(token))\n        return components\n"), None)
+R.mutant("r4-unformat-loop-prefers-plain-group-only", COMP,
+         sub(_UNF_OLD, "        matcher = self._r_identifiers\n        components = []\n"
+             "        for quoted_token, plain_token in matcher.findall(identifiers):\n"
+             "            token = quoted_token or plain_token\n"
+             "            components.append(token)\n        return components\n"), "C06-R4")
+R.mutant("benign-format-schema-private-helper", COMP,
+         sub('        """Prepare a quoted schema name."""\n\n        return self.quote(name)\n',
+             '        """Prepare a quoted schema name."""\n\n        return self._render_name(name)\n\n'
+             '    def _render_name(self, raw):\n        rendered = self.quote(raw)\n        return rendered\n'), None)
+R.mutant("r3-format-schema-private-helper-passthrough", COMP,
+         sub('        """Prepare a quoted schema name."""\n\n        return self.quote(name)\n',
+             '        """Prepare a quoted schema name."""\n\n        return self._render_name(name)\n\n'
+             '    def _render_name(self, raw):\n        rendered = raw\n        return rendered\n'), "C06-R3")
+_NORM_OLD = ("        elif name_upper == name and not (\n            self.identifier_preparer._requires_quotes\n        )(name_lower):")
+R.mutant("benign-normalize-preparer-alias", "engine/default.py",
+         chain(sub("        name_lower = name.lower()\n        name_upper = name.upper()\n\n        if name_upper == name_lower:\n"
+                   "            # name has no upper/lower conversion, e.g. non-european characters.\n            # return unchanged\n"
+                   "            return name\n        elif name_upper == name and not (",
+                   "        name_lower = name.lower()\n        name_upper = name.upper()\n        preparer = self.identifier_preparer\n"
+                   "        needs_quotes = preparer._requires_quotes\n\n        if name_upper == name_lower:\n"
+                   "            # name has no upper/lower conversion, e.g. non-european characters.\n            # return unchanged\n"
+                   "            return name\n        elif name_upper == name and not ("),
+               sub(_NORM_OLD, "        elif name_upper == name and not needs_quotes(name_lower):")), None)
+R.mutant("r6-normalize-preparer-alias-illegal-chars", "engine/default.py",
+         chain(sub("        name_lower = name.lower()\n        name_upper = name.upper()\n\n        if name_upper == name_lower:\n"
+                   "            # name has no upper/lower conversion, e.g. non-european characters.\n            # return unchanged\n"
+                   "            return name\n        elif name_upper == name and not (",
+                   "        name_lower = name.lower()\n        name_upper = name.upper()\n        preparer = self.identifier_preparer\n"
+                   "        needs_quotes = preparer._requires_quotes_illegal_chars\n\n        if name_upper == name_lower:\n"
+                   "            # name has no upper/lower conversion, e.g. non-european characters.\n            # return unchanged\n"
+                   "            return name\n        elif name_upper == name and not ("),
+               sub(_NORM_OLD, "        elif name_upper == name and not needs_quotes(name_lower):")), "C06-R6")
+R.mutant("benign-denormalize-helper", "engine/default.py",
+         sub("        elif name_lower == name and not (\n            self.identifier_preparer._requires_quotes\n        )(name_lower):\n            name = name_upper\n        return name\n",
+             "        elif name_lower == name and self._rendered_bare(name_lower):\n            name = name_upper\n        return name\n\n"
+             "    def _rendered_bare(self, lowered):\n        return not self.identifier_preparer._requires_quotes(lowered)\n"), None)
